@@ -41,7 +41,7 @@ CHECKS = {
    note="Object level (whole interactive sessions are added by the sys scenarios). No crash-point or disk-fault injection: the property quantifies over histories only."),
  "C08": dict(design="§6 C08", technique="deterministic simulation of whole interactive sessions: seeded action histories x reader progress x scan/cancel schedules vs fresh sequential filter at settle points",
    text="Whole simulated interactive sessions (real Run coordinator, reader, matcher, Terminal, LightRenderer; simulated tty, stdin, reload child processes, clock) under seeded histories of typing, deletion, clear/change-query, toggle-sort, exclude, reload and reload-sync arriving at seeded instants relative to loading, EOF, scans and cancellations, with CPU stalls; at every settle point the match list (all entries, white-box) must equal a fresh sequential filter of (loaded input minus issued exclusions, current query, current sort flag), counts must agree, and the reload command issued last must be the one loaded. Plus Matcher.Loop alone under adversarial request sequences: the last publish answers the last request.",
-   note="Settle = observable state digest stable for 3 simulated seconds with no runnable goroutine but the 100 ms spinner. Pure matcher trusted (sequential oracle uses it). A character typed in the same burst right before search is disabled is treated as unspecified (which query gets frozen depends on whether the coordinator has seen it)."),
+   note="Settle = observable state digest stable for 3 simulated seconds with no runnable goroutine but the 100 ms spinner. Pure matcher trusted (sequential oracle uses it). While search is disabled the string in effect is the query line of the moment it was disabled."),
  "C09": dict(design="§6 C09", technique="deterministic simulation of interactive sessions: seeded action histories vs executable reference editor/cursor/selection model",
    text="Whole simulated interactive sessions over a loaded list; seeded histories (1..60 steps) of ~45 editing, navigation and selection actions bound to keys and decoded by the real input decoder, with --multi[=N], --cycle, layouts, --height, tiny windows, --no-input, --track varying per run, and in a third of the runs the input arriving in stages (feed events between the actions, with and without --tail trimming) so that selection and cursor are followed across a growing / trimmed list; after every action (or burst) the session settles and query, query cursor, list cursor, selection (in selection order) and limit read from the real Terminal are compared with a reference model written from readline/man-page semantics whose result list comes from the sequential oracle; on accept, stdout is compared with the model's selection.",
    note="Bursts without a settle relax the comparison narrowly (list-dependent actions after a query change in the same burst; cursor after several query changes) because the list fzf saw at that instant is legitimately timing-dependent; likewise the cursor after --tail trimming, after a feed racing with a query change, or where --track falls back on the scroll offset. Multi-line items, wrapping, jump mode and mouse actions are outside the exact comparison."),
